@@ -350,4 +350,25 @@ theorem blob_view {P : Prims} {ks} (hL : P.sxor.Law ks) (key iv pad : Bytes) (hp
   · rw [xorAt_length]
   · rw [hL, xorAt_xorAt]; exact checkHeader_encode _ hp
 
+/-- the queue the handshake leaves behind consists of non-empty chunks -/
+theorem progressN_nonempty (P : Prims) (k : Nat) : ∀ (cq : Conn × Net), (∀ ch ∈ cq.2, ch ≠ []) →
+    ∀ ch ∈ (progressN P k cq).2, ch ≠ [] := by
+  induction k with
+  | zero => intro cq h; exact h
+  | succ k ih =>
+    intro cq h
+    unfold progressN
+    split
+    · exact h
+    · exact ih _ (Net.dropBytes_nonempty _ h)
+
+theorem feedAll_nonempty (P : Prims) (cs : List Bytes) : ∀ (c : Conn) (q : Net), (∀ ch ∈ q, ch ≠ []) →
+    ∀ ch ∈ (feedAll P c q cs).2, ch ≠ [] := by
+  induction cs with
+  | nil => intro c q hq; exact progressN_nonempty P 3 (c, q) hq
+  | cons x cs ih =>
+    intro c q hq
+    simp only [feedAll]
+    exact ih _ _ (Net.push_nonempty (progressN_nonempty P 3 (c, q) hq) x)
+
 end O4.Obfs2
